@@ -773,8 +773,8 @@ class DirectoryRecord:
                     self.children[index].data_continuation = child
                     self.children[index].file_flags |= (1 << self.FILE_FLAG_MULTI_EXTENT_BIT)
                     index += 1
-        self.children.insert(index, child)
 
+        rr_index = -1
         if child.rock_ridge is not None and not child.is_dot() and not child.is_dotdot():
             lo = 0
             hi = len(self.rr_children)
@@ -790,6 +790,17 @@ class DirectoryRecord:
                     raise pycdlibexception.PyCdlibInternalError('Expected all children to have Rock Ridge, but one did not')
             rr_index = lo
 
+            # Two entries of a directory with one Rock Ridge name could not
+            # both be reached by it.  (This is not looked at while parsing,
+            # for the further extents of a big file, and in RR_MOVED, where
+            # directories from all over the tree are parked.)
+            if check_overflow and not allow_duplicate and rr_index != len(self.rr_children) and self.file_identifier() != b'RR_MOVED':
+                other = self.rr_children[rr_index].rock_ridge
+                if other is not None and other.name() == child.rock_ridge.name():
+                    raise pycdlibexception.PyCdlibInvalidInput('Failed adding duplicate Rock Ridge name to parent')
+
+        self.children.insert(index, child)
+        if rr_index >= 0:
             self.rr_children.insert(rr_index, child)
 
         # We now have to check if we need to add another logical block.
